@@ -107,6 +107,7 @@ class PageDecoder:
 
     def process_page(self, page_layout: PageLayout):
         self.last_h = None
+        self.last_line = None
         for line in page_layout.lines_iterator():
             try:
                 line.transcription = self.decode_line(line)
